@@ -10,3 +10,35 @@ package sync
 //@   requires halted != nil && haltedReason != nil && mu != nil
 //@   modifies *halted, *haltedReason
 //@   ensures[cleared-only-if-rows-were-removed] *halted == (old(*halted) && rowsAffected <= 0)
+
+// ---- fetching the logs of a block range (C05). The node's RPC client is the boundary: logsIn(from, to) is what the
+// chain holds for the watched addresses in [from, to] (rigid ghost function, A8); qFrom / qTo observe the range of the
+// last successful query. Whatever GetLogs returns must come from one query over exactly the requested range.
+//@ spec fn logsIn(from int, to int) []types.Log
+//@ spec fn logsCount(from int, to int) int
+//@ ghost var qFrom int
+//@ ghost var qTo int
+
+//@ interface github.com/agglayer/aggkit/types.BaseEthereumClienter.FilterLogs (self, ctx, q)
+//@   requires q.FromBlock != nil && q.ToBlock != nil
+//@   modifies qFrom, qTo
+//@   ensures result1 != nil ==> qFrom == old(qFrom) && qTo == old(qTo)
+//@   ensures result1 == nil ==> qFrom == bigval(q.FromBlock) && qTo == bigval(q.ToBlock) && len(result0) == logsCount(qFrom, qTo) && off(result0) == 0 && seq(result0) == logsIn(qFrom, qTo)
+//@   ensures result1 == nil ==> forall(k, 0, len(result0), len(result0[k].Topics) > 0)
+
+//@ func (h *RetryHandler) Handle
+//@   trusted
+//@   modifies nothing
+
+//@ extern slices.Contains[[]github.com/ethereum/go-ethereum/common.Hash github.com/ethereum/go-ethereum/common.Hash] (s, v)
+//@   modifies nothing
+
+//@ func (d *EVMDownloaderImplementation) GetLogs
+//@   props C05
+//@   requires d != nil && d.ethClient != nil && d.log != nil && d.rh != nil
+//@   modifies qFrom, qTo
+//@   ensures[one-query-over-exactly-the-requested-range] result != nil ==> qFrom == fromBlock && qTo == toBlock
+//@   ensures[only-logs-of-that-query] forall(k, 0, len(result), exists(j, 0, logsCount(fromBlock, toBlock), result[k] == logsIn(fromBlock, toBlock)[j] && !logsIn(fromBlock, toBlock)[j].Removed))
+//@   loop 0 invariant d != nil && d.ethClient != nil && d.log != nil && d.rh != nil && query.FromBlock != nil && query.ToBlock != nil && bigval(query.FromBlock) == fromBlock && bigval(query.ToBlock) == toBlock
+//@   loop 1 invariant qFrom == fromBlock && qTo == toBlock && len(unfilteredLogs) == logsCount(fromBlock, toBlock) && off(unfilteredLogs) == 0 && seq(unfilteredLogs) == logsIn(fromBlock, toBlock) && off(logs) == 0
+//@   loop 1 invariant forall(k, 0, len(logs), exists(j, 0, logsCount(fromBlock, toBlock), logs[k] == logsIn(fromBlock, toBlock)[j] && !logsIn(fromBlock, toBlock)[j].Removed))
